@@ -139,7 +139,7 @@ func runC18Fields(c *Ctx) {
 			c.Undecided(eqf.Pos(), FuncName(eqf), "tolerance at extreme magnitudes", why)
 			return
 		}
-		m := &Model{Num: map[string]float64{key: sv, "$1.Type": 0, "$2.Type": 0, "$1.XY.X": tc.d, "$1.XY.Y": 0, "$2.XY.X": 0, "$2.XY.Y": 0}, Bool: map[string]bool{}, Missing: map[string]bool{}}
+		m := &Model{Num: map[string]float64{key: sv, "$1.Type": 0, "$2.Type": 0, "$1.XY.X": tc.d, "$1.XY.Y": 0, "$2.XY.X": 0, "$2.XY.Y": 0, "$1.Z": 0, "$2.Z": 0, "$1.M": 0, "$2.M": 0}, Bool: map[string]bool{}, Missing: map[string]bool{}}
 		in := map[string]bool{}
 		for _, n := range inl {
 			in[n] = true
